@@ -10,10 +10,10 @@ import (
 type logical func(iterator, string, interface{}, interface{}) bool
 
 var logicalFuncs = [][]logical{
-	{cmpBooleanBoolean, nil, nil, nil},
-	{nil, cmpNumericNumeric, cmpNumericString, cmpNumericNodeSet},
-	{nil, cmpStringNumeric, cmpStringString, cmpStringNodeSet},
-	{nil, cmpNodeSetNumeric, cmpNodeSetString, cmpNodeSetNodeSet},
+	{cmpBooleanBoolean, cmpBooleanAny, cmpBooleanAny, cmpBooleanAny},
+	{cmpBooleanAny, cmpNumericNumeric, cmpNumericString, cmpNumericNodeSet},
+	{cmpBooleanAny, cmpStringNumeric, cmpStringString, cmpStringNodeSet},
+	{cmpBooleanAny, cmpNodeSetNumeric, cmpNodeSetString, cmpNodeSetNodeSet},
 }
 
 // number vs number
@@ -60,8 +60,46 @@ func cmpBooleanBooleanF(op string, a, b bool) bool {
 		return a || b
 	case "and":
 		return a && b
+	case "=":
+		return a == b
+	case "!=":
+		return a != b
 	}
-	return false
+	// <, <=, >, >= compare the operands as numbers (true is 1, false is 0).
+	var x, y float64
+	if a {
+		x = 1
+	}
+	if b {
+		y = 1
+	}
+	return cmpNumberNumberF(op, x, y)
+}
+
+// cmpBooleanAny compares a boolean with an operand of another type (XPath 1.0
+// section 3.4): for = and != the other operand is converted to a boolean; for
+// the relational operators both operands are converted to numbers (a node-set
+// through its boolean value).
+func cmpBooleanAny(t iterator, op string, m, n interface{}) bool {
+	if op == "=" || op == "!=" {
+		return cmpBooleanBooleanF(op, asBool(t, m), asBool(t, n))
+	}
+	num := func(v interface{}) float64 {
+		switch v := v.(type) {
+		case float64:
+			return v
+		case string:
+			if f, err := strconv.ParseFloat(v, 64); err == nil {
+				return f
+			}
+			return math.NaN()
+		}
+		if asBool(t, v) {
+			return 1
+		}
+		return 0
+	}
+	return cmpNumberNumberF(op, num(m), num(n))
 }
 
 func cmpNumericNumeric(t iterator, op string, m, n interface{}) bool {
